@@ -1178,8 +1178,7 @@ func (d *DotGit) checkReferenceAndTruncate(f billy.File, old *plumbing.Reference
 		return err
 	}
 
-	if ref.Hash() != old.Hash() ||
-		(ref.Type() == plumbing.SymbolicReference && old.Type() == plumbing.SymbolicReference && ref.Target() != old.Target()) {
+	if referenceChanged(ref, old) {
 		return storage.ErrReferenceHasChanged
 	}
 	_, err = f.Seek(0, io.SeekStart)
@@ -1187,6 +1186,13 @@ func (d *DotGit) checkReferenceAndTruncate(f billy.File, old *plumbing.Reference
 		return err
 	}
 	return f.Truncate(0)
+}
+
+// referenceChanged reports whether the stored reference differs from the one a
+// compare-and-set expects.
+func referenceChanged(ref, old *plumbing.Reference) bool {
+	return ref.Hash() != old.Hash() ||
+		(ref.Type() == plumbing.SymbolicReference && old.Type() == plumbing.SymbolicReference && ref.Target() != old.Target())
 }
 
 // SetRef stores a reference, optionally checking that old matches the current value.
@@ -1512,6 +1518,12 @@ func (d *DotGit) walkReferencesTree(refs *[]*plumbing.Reference, relPath []strin
 		ref, err := d.readReferenceFile(".", strings.Join(newRelPath, "/"))
 		if os.IsNotExist(err) {
 			// a race happened, and our file is gone now
+			continue
+		}
+		if errors.Is(err, ErrEmptyRefFile) {
+			// A writer has created or emptied the file and not yet written
+			// it, or a refused compare-and-set has left it behind: like Ref,
+			// go on with the packed entry, if any.
 			continue
 		}
 		if err != nil {
